@@ -102,6 +102,16 @@ Theorem C16_oracle_accepts_model : forall (scp : Q) (ps : list pos) (t : Z),
 Proof. exact sheet_oracle_accepts_model. Qed.
 Print Assumptions C16_oracle_accepts_model.
 
+(** The general link between the two halves of the correspondence check: for EVERY case inside the
+    input requirements [wf_case] (non-zero cost of every position, pairwise distinct keys, every
+    update addressed to an existing key) and every tuple of observed outputs, if the observation
+    agrees with the model ([corr_b]) then it satisfies the property oracle [prop_b], at the same
+    tolerance.  All five case constructors are covered (sheet histories, trading summaries in both
+    modes, WinRate, ProfitFactor, calculate_pnl_return). *)
+Theorem C16_oracle_sound : forall c : case, wf_case c = true -> corr_b c = true -> prop_b c = true.
+Proof. exact oracle_sound. Qed.
+Print Assumptions C16_oracle_sound.
+
 (** Non-vacuity: three wins (one of them break-even), one loss, on two instruments. *)
 Definition q (n : Z) (d : positive) : Qc := Q2Qc (n # d).
 Definition c16_example : list pos :=
